@@ -297,6 +297,17 @@ func (e *Engine) globalInit(c *Ctx, g *ssa.Global) (string, bool) {
 			c.note("package-level constant (no store outside init): " + name)
 			return s, true
 		}
+	case *ssa.Call:
+		// var ErrX = errors.New("...") / fmt.Errorf(...): an unknown but non-nil error value
+		if callee := v.Call.StaticCallee(); callee != nil && isIfaceType(et) {
+			k := fnKey(callee)
+			if k == "errors.New" || k == "fmt.Errorf" {
+				c.note("package-level error value (no store outside init, non-nil): " + name)
+				x := c.decl("glob_"+sanitize(g.Name()), "Iface")
+				c.assume("true", fmt.Sprintf("(not ((_ is if_nil) %s))", x))
+				return x, true
+			}
+		}
 	case *ssa.MakeInterface:
 		if k, ok := v.X.(*ssa.Const); ok {
 			if ct := c.sorts.ifaceCtor(v.X.Type()); ct != nil {
